@@ -3086,3 +3086,9 @@ def _bare_cr_escape(v):
 
 
 FINDING_PREDICATES = {'xye.header.bare_cr_escapes_comment_prefix': _bare_cr_escape}
+
+
+# strict-caller variant shard of the runner (numpy floating-point events raise while package code runs): on the
+# unchanged tree squaring tiny uncertainties on load underflows;
+# these benign events are therefore not trapped for this property
+STRICT_NUMPY = {'under': 'ignore'}
